@@ -28,12 +28,13 @@ static const char *src_names[] = {"empty", "fin1", "fin2", "fin3", "inf", "throw
 enum CS { NEXT_VALUE = 0, CO_NEXT, CALL_WAIT, CALL_HASV, NCS };
 static const char *cs_names[] = {"next/value", "co_await-next", "call+wait", "call+co_await-has_value"};
 
+constexpr int MAXS = 5;  // up to five sources (thorough tier)
 struct Ctx {
-    cocls::future<int> gate[3];
-    cocls::promise<int> gate_p[3];
-    bool gate_used[3] = {false, false, false};
-    bool gate_resolved[3] = {false, false, false};
-    std::vector<int> args_seen[3];
+    cocls::future<int> gate[MAXS];
+    cocls::promise<int> gate_p[MAXS];
+    bool gate_used[MAXS] = {};
+    bool gate_resolved[MAXS] = {};
+    std::vector<int> args_seen[MAXS];
 };
 
 static int count_of(int kind) { return kind == FIN1 ? 1 : kind == FIN2 ? 2 : kind == FIN3 ? 3 : kind == THROW_AFTER1 ? 1 : kind == ASYNC2 ? 2 : kind == INF ? 1000 : 0; }
@@ -186,7 +187,7 @@ static void run_case_t(seqx::Runner &R, bool with_arg, const std::vector<int> &s
                 o = access_sync(*agg, st, arg);
             else {
                 access_co(*agg, st, arg, o).detach();
-                for (int k = 0; k < 3 && !o.done; k++)
+                for (int k = 0; k < MAXS && !o.done; k++)
                     if (c.gate_used[k] && !c.gate_resolved[k]) {
                         c.gate_resolved[k] = true;
                         c.gate_p[k](1);
@@ -255,7 +256,7 @@ static void run_case_t(seqx::Runner &R, bool with_arg, const std::vector<int> &s
             }
         }
         // open remaining gates before destruction (destroying with in-flight asynchronous sources blocks: vrt part)
-        for (int k = 0; k < 3; k++)
+        for (int k = 0; k < MAXS; k++)
             if (c.gate_used[k] && !c.gate_resolved[k]) {
                 c.gate_resolved[k] = true;
                 c.gate_p[k](1);
